@@ -61,3 +61,19 @@ package multi
 // ---------------------------------------------------------------- C09: lock discipline
 //@ guarded[C09] Transport.mu: currentTransportID
 //@ guarded[C09] Transport.lastReadTransportIDmu: lastReadTransportID
+
+// ---------------------------------------------------------------- C19: fan-in of member reads
+// Every message a member's reader takes from its transport is forwarded exactly once, in a result
+// holder allocated for this very message (never one that was already handed to the consumer),
+// carrying exactly the bytes just read, before the next message is read.
+//@ func (*Transport).readLoop$1
+//@   props C19
+//@   ghostvar hw int = 0
+//@   ghostvar owed bool = false
+//@   ghostvar bs []byte = nil
+//@   after call Transport).Read: hw = allocmark()
+//@   after call Transport).Read: owed = (res1 == nil)
+//@   after call Transport).Read: bs = res0
+//@   assert call WriteOrDone: owed && arg1 != nil && arg1 > hw && arg1.bs == bs && arg1.err == nil && arg2 == m.readResCh
+//@   after call WriteOrDone: owed = false
+//@   loop 1 invariant !owed
